@@ -246,3 +246,328 @@ From V Require Proofs.ConstsTie.
 Theorem C18_constants_match_source : ConstsTie.golomb_is_source_stmt /\ ConstsTie.bloom_is_source_stmt.
 Proof. exact (conj ConstsTie.golomb_is_source ConstsTie.bloom_is_source). Qed.
 Print Assumptions C18_constants_match_source.
+
+(* ================================================================================================== *)
+(* Second round: the code against independent transcriptions of BIP158 (Spec/Bip158.v: streaming bit
+   writer / reader, gcs_match) and of the receiving peer of BIP37 (Spec/BloomCore.v: Bitcoin Core's
+   CBloomFilter on the byte vector of the filterload message); converses of the round trips; the
+   message classes and the SipHash object API. *)
+From V Require Import Model.CFilterMsg Proofs.Bip158P Proofs.GcsSoundP Proofs.CFilterExtraP Proofs.BloomCoreP
+  Proofs.NetworkP.
+From V Require Spec.Bip158 Spec.BloomCore.
+
+Definition ex_key : bytes := [67; 73; 127; 215; 248; 38; 149; 113; 8; 244; 163; 15; 217; 206; 195; 174].
+Definition ex_block_hash : bytes :=
+  [0; 0; 0; 0; 9; 51; 234; 1; 173; 14; 233; 132; 32; 151; 121; 186; 174; 195; 206; 217; 15; 163; 244; 8; 113; 149;
+   38; 248; 215; 127; 73; 67].
+Definition ex_spk : bytes :=
+  [65; 4; 103; 138; 253; 176; 254; 85; 72; 39; 25; 103; 241; 166; 113; 48; 183; 16; 92; 214; 168; 40; 224; 57; 9;
+   166; 121; 98; 224; 234; 31; 97; 222; 182; 73; 246; 188; 63; 76; 239; 56; 196; 243; 85; 4; 229; 30; 193; 18; 222;
+   92; 56; 77; 247; 186; 11; 141; 87; 138; 76; 112; 43; 107; 241; 29; 95; 172].
+
+(* (9) byte for byte: serialize_gcs of ANY value list = CompactSize N, then the BIP158 bit stream written bit by
+       bit (q ones, a zero, P=19 bits MSB first per delta; bytes filled MSB first; zero padding) *)
+Theorem C18_serialize_gcs_is_bip158_stream : forall items,
+  zlen items < 18446744073709551616 ->
+  serialize_gcs items =
+  Ok (Spec.Bip158.compact_size (zlen items) ++
+      Spec.Bip158.bw_flush (Spec.Bip158.gcs_compress items 0 Spec.Bip158.bw_empty)).
+Proof. exact serialize_gcs_bip158. Qed.
+Print Assumptions C18_serialize_gcs_is_bip158_stream.
+
+(* (10) encode_gcs with the repository's SipHash = the filter BIP158 defines (standard SipHash-2-4, F = N*M with N
+        counting every element, (h*F)>>64, ascending order, deltas, Golomb-Rice, bit packing, CompactSize N),
+        for every 16-byte key and every element list *)
+Theorem C18_encode_gcs_is_bip158 : forall key items,
+  length key = 16%nat -> bytes_ok key -> Forall (fun e => bytes_ok e) items ->
+  zlen items < 18446744073709551616 ->
+  encode_gcs siphash key items = Ok (Spec.Bip158.filter_bytes key items).
+Proof. exact encode_gcs_bip158. Qed.
+Print Assumptions C18_encode_gcs_is_bip158.
+
+(* BIP158 test vector (testnet block 0): filter 019dfca8 *)
+Example bip158_vector_example : Spec.Bip158.filter_bytes ex_key [ex_spk] = [1; 157; 252; 168].
+Proof. vm_compute. reflexivity. Qed.
+Example bip158_stream_example :
+  Spec.Bip158.compact_size 3 ++ Spec.Bip158.bw_flush (Spec.Bip158.gcs_compress [56103; 1303493; 2309825] 0 Spec.Bip158.bw_empty)
+  = [3; 13; 178; 124; 194; 39; 174; 181; 248].
+Proof. vm_compute. reflexivity. Qed.
+
+(* (11) decode_gcs = the BIP's reader: whenever decode_gcs accepts, the streaming gcs decompression of the bytes
+        after the count returns the same list; it has max(0,N) non-negative non-decreasing values *)
+Theorem C18_decode_gcs_is_bip158_decompress : forall fb n r l,
+  read_varint fb = Ok (n, r) -> decode_gcs fb = Ok l ->
+  Spec.Bip158.gcs_decompress r n = Some l /\ zlen l = Z.max 0 n /\ ascending 0 l.
+Proof. exact decode_gcs_decompress. Qed.
+Print Assumptions C18_decode_gcs_is_bip158_decompress.
+
+(* (12) CompactFilter.parse(key, fb).__contains__ = gcs_match of BIP158 (walk the stream, stop at the first value
+        >= the target), on EVERY filter that parses — canonical or not *)
+Theorem C18_contains_is_bip158_match : forall key fb n r cf x,
+  length key = 16%nat -> bytes_ok key -> bytes_ok x -> bytes_ok fb ->
+  read_varint fb = Ok (n, r) -> cf_parse key fb = Ok cf ->
+  cf_f cf = n * Spec.Bip158.M158 /\ Spec.Bip158.gcs_decompress r n = Some (cf_hashes cf) /\
+  exists b, cf_contains siphash cf x = Ok b /\ Spec.Bip158.gcs_match key r x n = Some b.
+Proof. exact cf_contains_bip158_match. Qed.
+Print Assumptions C18_contains_is_bip158_match.
+
+Example contains_match_example :
+  read_varint [3; 13; 178; 124; 194; 39; 174; 181; 248; 255] = Ok (3, [13; 178; 124; 194; 39; 174; 181; 248; 255]) /\
+  (cf <- cf_parse ex_key [3; 13; 178; 124; 194; 39; 174; 181; 248; 255] ;; cf_contains siphash cf [1; 2; 3]) = Ok true /\
+  Spec.Bip158.gcs_match ex_key [13; 178; 124; 194; 39; 174; 181; 248; 255] [1; 2; 3] 3 = Some true /\
+  Spec.Bip158.gcs_match ex_key [13; 178; 124; 194; 39; 174; 181; 248; 255] [9] 3 = Some false.
+Proof. vm_compute. repeat split; reflexivity. Qed.
+
+(* (13) the filter of BIP158 queried through the library: parse succeeds, the answer to ANY query is the BIP's
+        gcs_match, decompression returns the sorted hashed set, and every element of the block is matched *)
+Theorem C18_bip158_filter_query : forall key items x,
+  length key = 16%nat -> bytes_ok key -> Forall (fun e => bytes_ok e) items ->
+  zlen items < 18446744073709551616 -> bytes_ok x ->
+  exists cf b, cf_parse key (Spec.Bip158.filter_bytes key items) = Ok cf /\
+    cf_contains siphash cf x = Ok b /\
+    Spec.Bip158.gcs_match key (Spec.Bip158.construct_gcs key items) x (zlen items) = Some b /\
+    Spec.Bip158.gcs_decompress (Spec.Bip158.construct_gcs key items) (zlen items)
+      = Some (Spec.Bip158.sort_asc (Spec.Bip158.hashed_set key items)) /\
+    (In x items -> b = true).
+Proof. exact bip158_filter_query. Qed.
+Print Assumptions C18_bip158_filter_query.
+
+(* (14) converses: what the decoders accept is an encoding *)
+Theorem C18_decode_golomb_sound : forall bits p x rest,
+  Forall (fun b => b = 0 \/ b = 1) bits -> decode_golomb bits p = Ok (x, rest) ->
+  0 <= x /\ bits = encode_golomb x p ++ rest.
+Proof. exact decode_golomb_sound. Qed.
+Print Assumptions C18_decode_golomb_sound.
+
+Theorem C18_decode_gcs_accepts_iff : forall b l,
+  decode_gcs b = Ok l <->
+  exists n r tail, read_varint b = Ok (n, r) /\ zlen l = Z.max 0 n /\ ascending 0 l /\
+                   unpack_bits r = gcs_deltas l 0 ++ tail.
+Proof. exact decode_gcs_accepts_iff. Qed.
+Print Assumptions C18_decode_gcs_accepts_iff.
+
+(* non-canonical input (a trailing byte) is accepted and decodes to the same value *)
+Example decode_noncanonical_example :
+  decode_gcs [1; 157; 252; 168; 255] = Ok [769941] /\ decode_gcs [1; 157; 252; 168] = Ok [769941] /\
+  decode_gcs [1; 157; 252] = Err.
+Proof. vm_compute. repeat split; reflexivity. Qed.
+
+(* parse . serialize . parse = parse on EVERY accepted filter: the re-serialisation is canonical, has the same
+   values and the same F *)
+Theorem C18_cf_reserialize_stable : forall key fb cf,
+  bytes_ok fb -> cf_parse key fb = Ok cf ->
+  exists raw cf', cf_serialize cf = Ok raw /\ cf_parse key raw = Ok cf' /\
+    cf_hashes cf' = cf_hashes cf /\ cf_f cf' = cf_f cf /\ cf_serialize cf' = Ok raw /\
+    ascending 0 (cf_hashes cf).
+Proof. exact cf_reserialize_stable. Qed.
+Print Assumptions C18_cf_reserialize_stable.
+
+(* (15) hash_to_range with the repository's SipHash = (siphash24(k, e) * F) >> 64 of BIP158, in [0, F) *)
+Theorem C18_hash_to_range_bip158 : forall key v f,
+  length key = 16%nat -> bytes_ok key -> bytes_ok v -> 0 <= f ->
+  hash_to_range siphash key v f = Ok (Spec.Bip158.hash_to_range key v f) /\
+  0 <= Spec.Bip158.hash_to_range key v f /\
+  (0 < f -> Spec.Bip158.hash_to_range key v f < f) /\
+  (f = 0 -> Spec.Bip158.hash_to_range key v f = 0).
+Proof. exact hash_to_range_siphash. Qed.
+Print Assumptions C18_hash_to_range_bip158.
+
+Theorem C18_hash_to_range_bad_key : forall key v f,
+  length key <> 16%nat -> hash_to_range siphash key v f = Err.
+Proof. exact hash_to_range_bad_key. Qed.
+Print Assumptions C18_hash_to_range_bad_key.
+
+(* a query matches EXACTLY when its value in [0, N*M) equals the value of an inserted element (no other false
+   positives), for every keyed hash into [0, 2^64) *)
+Theorem C18_cf_contains_iff :
+  forall (sip : bytes -> bytes -> result Z) key items fb,
+  (forall v h, In v items -> sip key v = Ok h -> 0 <= h < 18446744073709551616) ->
+  encode_gcs sip key items = Ok fb ->
+  exists cf, cf_parse key fb = Ok cf /\
+    forall x, cf_contains sip cf x = Ok true <->
+      exists y h, In y items /\ hash_to_range sip key x (zlen items * GOLOMB_M) = Ok h /\
+                  hash_to_range sip key y (zlen items * GOLOMB_M) = Ok h.
+Proof. exact cf_contains_iff. Qed.
+Print Assumptions C18_cf_contains_iff.
+
+(* (16) SipHash object API: digest() is the 8-byte little-endian hash, hexdigest() its lower-case hex; the
+        two-argument constructor followed by any updates hashes the concatenation *)
+Theorem C18_siphash_digest_spec : forall key v,
+  length key = 16%nat -> bytes_ok key -> bytes_ok v ->
+  siphash_digest key v = Ok (to_le 8 (Spec.Siphash.siphash24 key v)) /\
+  siphash_hexdigest key v = Ok (hexlify (to_le 8 (Spec.Siphash.siphash24 key v))) /\
+  from_le (to_le 8 (Spec.Siphash.siphash24 key v)) = Spec.Siphash.siphash24 key v.
+Proof. exact siphash_digest_spec. Qed.
+Print Assumptions C18_siphash_digest_spec.
+
+Theorem C18_sip_object_digest : forall key s0 chunks st,
+  length key = 16%nat -> bytes_ok key -> bytes_ok s0 -> Forall (fun c => bytes_ok c) chunks ->
+  sip_new key s0 = Ok st ->
+  sip_hash (fold_left sip_update chunks st) = Spec.Siphash.siphash24 key (s0 ++ concat chunks) /\
+  sip_digest (fold_left sip_update chunks st) = Ok (to_le 8 (Spec.Siphash.siphash24 key (s0 ++ concat chunks))).
+Proof. exact sip_object_digest. Qed.
+Print Assumptions C18_sip_object_digest.
+
+(* SipHash reference vector 1 (key 00..0f, message 00): 74f839c593dc67fd *)
+Example siphash_hexdigest_example :
+  siphash_hexdigest [0;1;2;3;4;5;6;7;8;9;10;11;12;13;14;15] [0]
+  = Ok [102;100;54;55;100;99;57;51;99;53;51;57;102;56;55;52].
+Proof. vm_compute. reflexivity. Qed.
+
+(* (17) BIP157 messages.  A cfilter message carrying a filter built under the key the block hash defines
+        (block_hash[::-1][:16]): CFilterMessage.parse(wire) reports every element, so does the constructor, and
+        hash() is hash256 of the filter bytes *)
+Theorem C18_cfilter_message_members :
+  forall (sip : bytes -> bytes -> result Z) t bh items fb rest,
+  length bh = 32%nat ->
+  (forall v h, In v items -> sip (cfmsg_key bh) v = Ok h -> 0 <= h < 18446744073709551616) ->
+  encode_gcs sip (cfmsg_key bh) items = Ok fb -> zlen fb < 9223372036854775808 ->
+  exists wire, cfilter_layout t bh fb = Ok wire /\
+    (forall x, In x items -> cfmsg_contains sip (wire ++ rest) x = Ok true) /\
+    (forall x, In x items -> cfmsg_new_contains sip bh fb x = Ok true) /\
+    (forall hash256, cfmsg_hash hash256 (wire ++ rest) = Ok (hash256 fb)).
+Proof. exact cfilter_message_members. Qed.
+Print Assumptions C18_cfilter_message_members.
+
+Theorem C18_cfilter_message_bip158 : forall t bh items rest,
+  length bh = 32%nat -> bytes_ok bh -> Forall (fun e => bytes_ok e) items ->
+  zlen items < 18446744073709551616 ->
+  let fb := Spec.Bip158.filter_bytes (cfmsg_key bh) items in
+  zlen fb < 9223372036854775808 ->
+  exists wire, cfilter_layout t bh fb = Ok wire /\
+    (forall x, In x items -> cfmsg_contains siphash (wire ++ rest) x = Ok true) /\
+    (forall hash256, cfmsg_hash hash256 (wire ++ rest) = Ok (hash256 fb)).
+Proof. exact cfilter_message_bip158. Qed.
+Print Assumptions C18_cfilter_message_bip158.
+
+Example cfilter_message_example :
+  cfmsg_key ex_block_hash = ex_key /\
+  cfmsg_contains siphash
+    ([0; 67; 73; 127; 215; 248; 38; 149; 113; 8; 244; 163; 15; 217; 206; 195; 174; 186; 121; 151; 32; 132; 233; 14;
+      173; 1; 234; 51; 9; 0; 0; 0; 0; 4; 1; 157; 252; 168] ++ [7; 7]) ex_spk = Ok true.
+Proof. vm_compute. split; reflexivity. Qed.
+
+(* CFHeadersMessage.parse(wire).last_header for every well-formed cfheaders message *)
+Theorem C18_cfheaders_last_header :
+  forall (hash256 : bytes -> bytes) t stop prev hs rest,
+  length stop = 32%nat -> length prev = 32%nat ->
+  Forall (fun h => length h = 32%nat) hs -> zlen hs < 18446744073709551616 ->
+  exists wire, cfheaders_layout t stop prev hs = Ok wire /\
+    cfheaders_last hash256 (wire ++ rest) = Ok (fold_left (fun cur fh => hash256 (fh ++ cur)) hs prev).
+Proof. exact cfheaders_last_header. Qed.
+Print Assumptions C18_cfheaders_last_header.
+
+(* consecutive batches chain: starting the second batch from the last header of the first gives the header of
+   the whole run *)
+Theorem C18_cfheaders_batches : forall (hash256 : bytes -> bytes) prev hs1 hs2,
+  cfheader_chain hash256 (cfheader_chain hash256 prev hs1) hs2 = cfheader_chain hash256 prev (hs1 ++ hs2).
+Proof. exact cfheaders_batches. Qed.
+Print Assumptions C18_cfheaders_batches.
+
+Theorem C18_filter_headers_from_step : forall (hash256 : bytes -> bytes) prev fbs fb,
+  filter_headers_from hash256 prev (fbs ++ [fb]) =
+  hash256 (hash256 fb ++ filter_headers_from hash256 prev fbs).
+Proof. exact filter_headers_from_step. Qed.
+Print Assumptions C18_filter_headers_from_step.
+
+(* the filter hash fed to the chain is what CompactFilter.hash() returns on every filter made by encode_gcs *)
+Theorem C18_filter_header_of_parsed :
+  forall (sip : bytes -> bytes -> result Z) (hash256 : bytes -> bytes) key items fb prev,
+  (forall v h, In v items -> sip key v = Ok h -> 0 <= h < 18446744073709551616) ->
+  encode_gcs sip key items = Ok fb ->
+  exists cf fh, cf_parse key fb = Ok cf /\ cf_hash hash256 cf = Ok fh /\
+    cfheader_chain hash256 prev [fh] = hash256 (hash256 fb ++ prev).
+Proof. exact filter_header_of_parsed. Qed.
+Print Assumptions C18_filter_header_of_parsed.
+
+(* (18) BIP37 at the byte level.  filter_bytes() after any sequence of add() calls = the vData of Bitcoin Core's
+        CBloomFilter after the same insert() calls, byte for byte (seeds >= 2^32 included: Core computes in
+        uint32, the Python code on unbounded integers) *)
+Theorem C18_bloom_filter_bytes_eq_core : forall items b b' fb,
+  0 < bf_size b -> zlen (bf_bits b) = bf_size b * 8 -> Forall (fun x => x = 0 \/ x = 1) (bf_bits b) ->
+  Forall (fun e => bytes_ok e) items -> bloom_add_list b items = Ok b' ->
+  bit_field_to_bytes (bf_bits b) = Ok fb ->
+  bit_field_to_bytes (bf_bits b') =
+  Ok (fold_left (Spec.BloomCore.core_insert (bf_fc b) (bf_tweak b)) items fb).
+Proof. intros items b b' fb H1 H2 H3. exact (bloom_filter_bytes_core items b b' fb (conj H1 (conj H2 H3))). Qed.
+Print Assumptions C18_bloom_filter_bytes_eq_core.
+
+(* Core's contains() evaluated on the bytes of filter_bytes() = all function_count bits set in the bit field *)
+Theorem C18_core_contains_matches : forall b fb item,
+  0 < bf_size b -> zlen (bf_bits b) = bf_size b * 8 -> Forall (fun x => x = 0 \/ x = 1) (bf_bits b) ->
+  bit_field_to_bytes (bf_bits b) = Ok fb -> bytes_ok item ->
+  Spec.BloomCore.core_contains (bf_fc b) (bf_tweak b) fb item = bloom_matches b item.
+Proof. intros b fb item H1 H2 H3. exact (core_contains_matches b fb item (conj H1 (conj H2 H3))). Qed.
+Print Assumptions C18_core_contains_matches.
+
+(* what the remote peer sees: the filterload payload of BloomFilter(size, fc, tweak) after add(items) decodes
+   (strictly) into Core's vData after insert(items), nHashFuncs = fc, nTweak = tweak, nFlags = flag, and
+   contains() holds for every added item — no false negatives on the wire, for every size, function count,
+   tweak and item list *)
+Theorem C18_bloom_wire_no_false_negative : forall size fc tweak items flag,
+  0 < size < 18446744073709551616 -> 0 <= fc < 4294967296 -> 0 <= tweak < 4294967296 -> 0 <= flag < 256 ->
+  Forall (fun e => bytes_ok e) items ->
+  exists b payload v,
+    bloom_add_list (bloom_new size fc tweak) items = Ok b /\
+    filterload b flag = Ok payload /\
+    v = fold_left (Spec.BloomCore.core_insert fc tweak) items (repeatz 0 (Z.to_nat size)) /\
+    payload = Spec.BloomCore.filterload_bytes v fc tweak flag /\
+    Spec.BloomCore.filterload_decode payload = Some (v, fc, tweak, flag) /\
+    zlen v = size /\
+    forall it, In it items -> Spec.BloomCore.core_contains fc tweak v it = true.
+Proof. exact bloom_wire_no_false_negative. Qed.
+Print Assumptions C18_bloom_wire_no_false_negative.
+
+(* Bitcoin Core bloom_tests bloom_create_insert_serialize: 3 bytes, 5 functions, tweak 0 -> 03614e9b050000000000000001 *)
+Example bloom_core_vector_example :
+  let items := [[153; 16; 138; 216; 237; 155; 182; 39; 77; 57; 128; 186; 181; 168; 92; 4; 143; 9; 80; 200];
+                [181; 162; 199; 134; 217; 239; 70; 88; 40; 124; 237; 89; 20; 179; 122; 27; 74; 163; 46; 238];
+                [185; 48; 6; 112; 180; 197; 54; 110; 149; 178; 105; 158; 139; 24; 188; 117; 229; 247; 41; 197]] in
+  let v := fold_left (Spec.BloomCore.core_insert 5 0) items [0; 0; 0] in
+  v = [97; 78; 155] /\
+  Spec.BloomCore.filterload_bytes v 5 0 1 = [3; 97; 78; 155; 5; 0; 0; 0; 0; 0; 0; 0; 1] /\
+  (b <- bloom_add_list (bloom_new 3 5 0) items ;; filterload b 1) = Ok [3; 97; 78; 155; 5; 0; 0; 0; 0; 0; 0; 0; 1] /\
+  forallb (Spec.BloomCore.core_contains 5 0 v) items = true /\
+  Spec.BloomCore.core_contains 5 0 v [1; 2; 3] = false.
+Proof. vm_compute. repeat split; reflexivity. Qed.
+
+(* (11') ... and on ALL inputs: decode_gcs raises exactly when the BIP's reader runs off the end of the stream *)
+Theorem C18_decode_gcs_eq_bip158_decompress : forall fb n r,
+  read_varint fb = Ok (n, r) ->
+  decode_gcs fb = match Spec.Bip158.gcs_decompress r n with Some l => Ok l | None => Err end.
+Proof. exact decode_gcs_eq_decompress. Qed.
+Print Assumptions C18_decode_gcs_eq_bip158_decompress.
+
+(* (18') the peer's limits (36000 bytes, 50 functions) applied to the payload the library sends *)
+Theorem C18_filterload_acceptable : forall v fc tweak flag,
+  zlen v < 18446744073709551616 -> 0 <= fc < 4294967296 -> 0 <= tweak < 4294967296 ->
+  Spec.BloomCore.filterload_acceptable (Spec.BloomCore.filterload_bytes v fc tweak flag) =
+  (zlen v <=? Spec.BloomCore.MAX_BLOOM_FILTER_SIZE) && (fc <=? Spec.BloomCore.MAX_HASH_FUNCS).
+Proof. exact filterload_acceptable_bytes. Qed.
+Print Assumptions C18_filterload_acceptable.
+
+(* an accepted non-canonical filter: CompactFilter.serialize() (hence CompactFilter.hash()) is the canonical coding
+   of the values, not the bytes received — CFilterMessage.hash() hashes the received bytes *)
+Example cf_serialize_noncanonical_example :
+  (cf <- cf_parse ex_key [1; 157; 252; 168; 255] ;; cf_serialize cf) = Ok [1; 157; 252; 168].
+Proof. vm_compute. reflexivity. Qed.
+
+(* a cfheaders message with two filter hashes, under a toy "hash" (first 32 bytes of the reversed input) *)
+Example cfheaders_last_example :
+  let h := fun b : bytes => firstn 32 (rev b) in
+  let wire := [0] ++ rev (repeatz 9 32) ++ repeatz 8 32 ++ [2] ++ repeatz 5 32 ++ repeatz 6 32 in
+  cfheaders_layout 0 (repeatz 9 32) (repeatz 8 32) [repeatz 5 32; repeatz 6 32] = Ok wire /\
+  cfheaders_last h (wire ++ [1; 2; 3]) = Ok (h (repeatz 6 32 ++ h (repeatz 5 32 ++ repeatz 8 32))).
+Proof. vm_compute. split; reflexivity. Qed.
+
+Example sip_object_example :
+  (st <- sip_new [0;1;2;3;4;5;6;7;8;9;10;11;12;13;14;15] [0; 1; 2] ;;
+   sip_digest (fold_left sip_update [[3; 4; 5; 6; 7; 8]; []; [9]] st))
+  = Ok (to_le 8 (Spec.Siphash.siphash24 [0;1;2;3;4;5;6;7;8;9;10;11;12;13;14;15] [0;1;2;3;4;5;6;7;8;9])).
+Proof. vm_compute. reflexivity. Qed.
+
+Example hash_to_range_example :
+  hash_to_range siphash [0;1;2;3;4;5;6;7;8;9;10;11;12;13;14;15] [1; 2; 3] (3 * GOLOMB_M) = Ok 558450 /\
+  hash_to_range siphash [0;1;2;3;4;5;6;7;8;9;10;11;12;13;14;15] [1; 2; 3] 0 = Ok 0 /\
+  hash_to_range siphash [0;1;2] [1; 2; 3] 5 = Err.
+Proof. vm_compute. repeat split; reflexivity. Qed.
